@@ -23,7 +23,7 @@ ROOT = os.path.dirname(os.path.dirname(os.path.abspath(__file__)))
 REPO = os.environ.get('VERIF_REPO', '/repo')
 LEAN = os.path.join(ROOT, 'lean')
 HARNESS = os.path.join(ROOT, 'harness')
-EVID = os.path.join(ROOT, 'evidence')
+EVID = os.environ.get('VERIF_EVID') or os.path.join(ROOT, 'evidence')   # VERIF_EVID: only for tools/matrix.py (mutant runs)
 REPLAY = os.path.join(EVID, 'replay')
 NCPU = os.cpu_count() or 4
 GUARD = 'MDSORT_VERIF'
